@@ -10,10 +10,12 @@ CONSTANTS
   Orders <- OrdersQuick
   SeqPaths = {"msgp"}
   MapPaths = {"map", "json"}
+  KeySets <- KeySetsNone
+  KeyPaths = {"msgp"}
   PTypings = {"absent", "str", "empty"}
   STypings = {"absent", "log", "trace", "empty", "nonstr"}
   Faithful = TRUE
 CHECK_DEADLOCK FALSE
-INVARIANTS TypeOK C21Belongs C21ConfiguredOrder C21Root C21OrderIndependent OnlyIdeal
+INVARIANTS TypeOK C21Belongs C21ConfiguredOrder C21Root C21OrderIndependent C21SamplerIndependent OnlyIdeal
 ACTION_CONSTRAINT Dump
 VIEW View
